@@ -12,14 +12,14 @@ TRUSTED = ["sqlglot parses the emitted DuckDB SQL as DuckDB does (self-checked p
            "uninterpreted builtins (round, trunc, ln, exp, sqrt, power, log, upper, lower, trim...) are shared symbols: plumbing is decided, the builtin's own arithmetic is trusted"]
 
 
-def run(rep, tier, templates, functions, bounds, outside, assumptions=()):
+def run(rep, tier, templates, functions, bounds, outside, assumptions=(), fn=None):
     rep.functions = FUNCS_COMMON + list(functions)
     rep.bounds = bounds
     rep.outside = list(outside)
     rep.trusted = TRUSTED
     rep.assumptions = ["inputs satisfy what the loader enforces: identifiers non-null and unique, <=1 datapoint without identifiers",
                        "Integer/Number inputs within +-2^20, strings over [a-c]{0,2}"] + list(assumptions)
-    res = driver.run_all(rep, templates)
+    res = driver.run_all(rep, templates, fn=fn)
     rep.extra["selfcheck_cells_compared_with_duckdb"] = sum((r.get("selfcheck") or {}).get("cells", 0) for r in res)
     rep.extra["templates"] = len(templates)
     rep.extra["rule"] = ("one obligation = one script template: the SQL emitted by the real transpiler for it is evaluated symbolically over "
